@@ -135,6 +135,22 @@ def run(ctx):
             ctx.violation("impl-violates-spec", "atom query failed: %s (status %s, stderr %r)" % (a, r["status"], r["stderr"][:200]), input={"query": r["query"]})
             continue
         truth_of[a] = rowset(rows)
+    # the documented complements between atoms themselves: `x not between a and b` / `x between a and b`, the infix
+    # `not like`, and each comparison with its opposite - with bounds that occur as attribute values in the tree
+    comp_pairs = [("size between 5 and 50", "size not between 5 and 50"), ("size between 10 and 100", "size not between 10 and 100"), ("size between 0 and 1000", "size not between 0 and 1000"),
+                  ("size between 11 and 11", "size not between 11 and 11"), ("length(name) between 2 and 5", "length(name) not between 2 and 5"),
+                  ("name like 'a%'", "name not like 'a%'"), ("name like '%.txt'", "name notlike '%.txt'"), ("size = 10", "size != 10"), ("size > 10", "size <= 10"), ("size >= 50", "size < 50"),
+                  ("name =~ '^[ab]'", "name !=~ '^[ab]'"), ("name = '*.txt'", "name != '*.txt'"), ("name === 'a.txt'", "name !== 'a.txt'"), ("is_dir = true", "is_dir != true")]
+    for a, b, (_, ra, qa), (_, rb, qb) in [(a, b, atom_rows(a), atom_rows(b)) for a, b in comp_pairs]:
+        st_case = {"tree": root, "queries": [qa["query"], qb["query"]]}
+        if ra is None or rb is None or qa["status"] != 0 or qb["status"] != 0:
+            ctx.violation("impl-violates-spec", "atom query failed: %s / %s" % (a, b), input=st_case)
+            continue
+        sa, sb = rowset(ra), rowset(rb)
+        if sa & sb or (sa | sb) != full:
+            both = [universe[i] for i in range(len(universe)) if ((sa & sb) >> i) & 1][:6]
+            none = [universe[i] for i in range(len(universe)) if ((full ^ (sa | sb)) >> i) & 1][:6]
+            ctx.violation("impl-violates-spec", "`%s` is not the complement of `%s`: returned by both %s, by neither %s" % (b, a, both, none), input=st_case)
     jobs = []
     # bounded-exhaustive: every formula shape up to a size bound over three atoms
     bound = 5 if ctx.tier == "quick" else 7
@@ -182,6 +198,6 @@ def run(ctx):
             st["samples"].append({"where": text, "rows": bin(got).count("1"), "of": len(universe)})
     ctx.coverage.update(
         evaluations=len(jobs) + len(ATOMS), distinct_nontrivial=len(st["distinct"]), traces_validated_against_impl=st["agreed"],
-        rule="tree of 36 files (sizes around the literals: v-1, v, v+1; names around the patterns) realising the truth assignments of %d atoms of every operator kind (incl. between / not between / not like, boolean, regex, glob, function); EVERY formula shape up to %d nodes over three atoms (x several atom triples) plus random formulas to depth 5, rendered with minimal or redundant brackets in both styles and prefix `not`; the formula's result set must equal the Boolean combination (and = intersection, or = union, not = complement) of the atoms' own result sets. non-trivial = >= 3 nodes and a proper non-empty result" % (len(ATOMS), bound),
+        rule="tree of 36 files (sizes around the literals: v-1, v, v+1; names around the patterns) realising the truth assignments of %d atoms of every operator kind (incl. between / not between / not like, boolean, regex, glob, function); EVERY formula shape up to %d nodes over three atoms (x several atom triples) plus random formulas to depth 5, rendered with minimal or redundant brackets in both styles and prefix `not`; the documented complements between atoms (between / not between with bounds that occur in the tree, like / not like, each comparison and its opposite) are checked directly; the formula's result set must equal the Boolean combination (and = intersection, or = union, not = complement) of the atoms' own result sets. non-trivial = >= 3 nodes and a proper non-empty result" % (len(ATOMS), bound),
         samples=st["samples"], distribution=dict(st["hist"]), exhaustive_up_to_size=bound)
     return ctx.finish(trusted=["atom truth values are taken from the implementation's own single-atom runs (their meaning is C02's subject)"])
